@@ -1331,8 +1331,7 @@ def stream_samples(c, N):
         except Exception as e:
             bad['spec'] += 1
             c.broken_no_input('spec:python', 'python specification raised %s: %s' % (type(e).__name__, e), replay); continue
-        # specification vs Lean model (keeps the oracle honest); per element as multisets when the zip order differs
-        def canon(lists): return [sorted(l) for l in lists] if unstable else lists
+        # specification vs Lean model (keeps the oracle honest); per element as multisets when the order inside zipped elements differs
         sp_pts = [[fmt_pt(pt) for pt, wl in el] for el in elems]
         sp_wts = [[math.prod(pc['W_int'][lp] for lp in wl) for pt, wl in el] for el in elems]
         if mode != 'index':
@@ -1340,13 +1339,16 @@ def stream_samples(c, N):
             m_wts = [[int(x) for x in l.split()] for l in mwts.split(';')] if sp_nel else []
             pairs_s = [list(zip(a_, b_)) for a_, b_ in zip(sp_pts, sp_wts)]
             pairs_m = [list(zip(a_, b_)) for a_, b_ in zip(m_pts, m_wts)]
-            if canon(sp_idx) != canon(mlist) or canon(pairs_s) != canon(pairs_m) or [len(x) for x in m_pts] != [len(x) for x in m_wts]:
-                bad['spec'] += 1
-                c.broken_no_input('corr:spec-vs-model', 'python specification and Lean model disagree on element points / weights / index',
-                                  dict(replay, spec_pts=repr(sp_pts)[:400], model_pts=mpts[:400], spec_wts=repr(sp_wts)[:200], model_wts=mwts[:200]))
-        elif canon(sp_idx) != canon(mlist):
+        else:
+            pairs_s = pairs_m = m_pts = m_wts = []
+        agree = sp_idx == mlist and pairs_s == pairs_m
+        if not agree and contains(node, 'Z') and [sorted(l) for l in sp_idx] == [sorted(l) for l in mlist] and [sorted(l) for l in pairs_s] == [sorted(l) for l in pairs_m]:
+            if not unstable: c.count('zip-order-unstable')
+            unstable = True; agree = True
+        if not agree or [len(x) for x in m_pts] != [len(x) for x in m_wts]:
             bad['spec'] += 1
-            c.broken_no_input('corr:spec-vs-model', 'python specification and Lean model disagree on the index', replay)
+            c.broken_no_input('corr:spec-vs-model', 'python specification and Lean model disagree on element points / weights / index',
+                              dict(replay, spec_pts=repr(sp_pts)[:400], model_pts=(mpts or '')[:400], spec_wts=repr(sp_wts)[:200], model_wts=(mwts or '')[:200]))
         nums = mnum.split() if mnum is not None else []
         if len(set(nums)) > 1:
             bad['numbers'] += 1
